@@ -21,6 +21,7 @@ for f in sys.argv[1:]:
         d = res.setdefault(n, {})
         if p[1] in ('APPLY-FAIL', 'BUILD-FAIL'):
             d['_'] = p[1]; continue
+        d.pop('_', None)
         for c in p[1:]:
             q = c.split(':')
             if len(q) >= 2 and q[1] != '2':
